@@ -681,7 +681,39 @@ func (x *runner) formEquiv(td *typeDesc, c caseRec, a, b *form.Data) {
 		if (f.Type == "list-single" || f.Type == "list-multi") && fmt.Sprint(f.Option) != fmt.Sprint(g.Option) && len(f.Option)+len(g.Option) > 0 {
 			x.fail(td, "roundtrip/options", fmt.Sprintf("options %+v became %+v", f.Option, g.Option), c)
 		}
+		if want := wireValues(string(f.Type), f.Value); fmt.Sprint(want) != fmt.Sprint(g.Value) && len(want)+len(g.Value) > 0 {
+			x.fail(td, "roundtrip/values", fmt.Sprintf("field %q (%s): values %q should read back as %q, got %q", f.Var, f.Type, f.Value, want, g.Value), c)
+		}
 	}
+}
+
+// wireValues: the values of a field that XEP-0004 allows on the wire, stated
+// independently of the library: no empty value; a boolean is one of true,
+// false, 0, 1; a JID field holds addresses; only the multi-valued types carry
+// more than one value (the first that qualifies is kept).
+func wireValues(typ string, vals []string) []string {
+	multi := typ == "list-multi" || typ == "jid-multi" || typ == "text-multi"
+	var out []string
+	for _, v := range vals {
+		if v == "" {
+			continue
+		}
+		if len(out) > 0 && !multi {
+			break
+		}
+		switch typ {
+		case "boolean":
+			if v != "true" && v != "false" && v != "0" && v != "1" {
+				continue
+			}
+		case "jid-single", "jid-multi":
+			if _, err := jid.Parse(v); err != nil {
+				continue
+			}
+		}
+		out = append(out, v)
+	}
+	return out
 }
 
 func setsCoq(ops []setOp) string {
